@@ -75,22 +75,70 @@ def expected(case):
 
 
 ENV_STREAM = ["365", "0", "1", "-1", "-365", "abc", "", "1.5", "1e3", " 42 ", "+7", "00012", "9999999"]
+# literal forms of CPython's int(): sign, C white space, single underscores between digits, no base prefix / exponent, the
+# digit limit of sys.get_int_max_str_digits() (4300: underscores and sign do not count, leading zeros do), and the three
+# non-ASCII values (other scripts' digits, no-break space) that the ASCII-only model does not cover
+ENV_EXTRA = ["+7", " 42 ", "1_000", "1__0", "\u0663", "0x10", "1e3", "-0", "_1", "1_", "+ 1", "- 1", "1 2", " ", "\t42\n", "\x1c42", "42\x1f",
+             "\x0b7\x0c", "\uff14\uff12", "1\xa0", "--1", "+-1", "+", "-", "0_0", "-0_0", "+00", "1_2_3", "12a", "a12", "0b1", "0o7", "1,000",
+             "1.0", ".5", "1e0", "inf", "nan", "True", "None", "9" * 4300, "9" * 4301, "0" * 4400 + "1", "-" + "9" * 4300,
+             "1_" * 4299 + "1", "1_" * 4300 + "1", " " * 50 + "365" + "\n" * 3]
+UNSET = object()
+
+
+def gen_env_strings(rng, n):
+    """random short strings over the alphabet int() cares about; about half are well-formed literals with decoration"""
+    out = []
+    alpha = list("0123456789") * 3 + list("__+- \t\n") + list("e.xa\x1c\x0b")
+    for _ in range(n):
+        if rng.chance(50):
+            digits = "".join(rng.choice("0123456789") for _ in range(rng.range(1, 6)))
+            if rng.chance(30) and len(digits) > 1:
+                k = rng.range(1, len(digits) - 1)
+                digits = digits[:k] + rng.choice(["_", "_", "__", " "]) + digits[k:]
+            s = rng.choice(["", "", "+", "-", " ", "\t"]) + rng.choice(["", "", "+", "-"]) + digits + rng.choice(["", "", " ", "\n", "_", "\x1d"])
+        else:
+            s = "".join(rng.choice(alpha) for _ in range(rng.range(1, 7)))
+        out.append(s)
+    return out
+
+
+def is_ascii(s):
+    return all(ord(ch) < 128 for ch in s)
+
+
+def max_str_digits():
+    import sys
+    return getattr(sys, "get_int_max_str_digits", lambda: 0)()
+
+
+def env_model_line(s):
+    """driver cmd 4: [max_digits; set?; len; code points]"""
+    if s is UNSET:
+        return f"4 {max_str_digits()} 0 0"
+    return f"4 {max_str_digits()} 1 {len(s)} " + " ".join(str(ord(ch)) for ch in s)
 
 
 def impl_env(s):
     import os
     from harness import impl  # noqa: F401
     os.environ["CURRENCY_CODE"] = "usd"
-    os.environ["LONG_TERM_CAPITAL_GAINS"] = s
+    if s is UNSET:
+        os.environ.pop("LONG_TERM_CAPITAL_GAINS", None)
+    else:
+        os.environ["LONG_TERM_CAPITAL_GAINS"] = s
     try:
         from rp2.plugin.country.generic import Generic
         return ["ok", Generic().get_long_term_capital_gain_period()]
     except Exception as exc:  # noqa: BLE001
         from harness.impl import err_kind
         return ["err", err_kind(exc)]
+    finally:
+        os.environ.pop("LONG_TERM_CAPITAL_GAINS", None)
 
 
 def expected_env(s):
+    if s is UNSET:
+        return ["err", "value"]
     try:
         v = int(s)
     except ValueError:
@@ -130,12 +178,30 @@ def run(tier, build, replay=None):
             mism += 1
             out.violation(f"model/implementation disagree: impl {ir}, model {mr}", c, tags={"correspondence"}, found_input=False)
     # generic env parsing stream (finite, fixed)
-    env_cases = ENV_STREAM if not replay else []
+    env_cases = (ENV_STREAM + [UNSET] + [x for x in ENV_EXTRA if x not in ENV_STREAM]
+                 + gen_env_strings(core.Rng(core.seed(), 55), 400 if tier == "quick" else 20000)) if not replay else []
     env_impl = [impl_env(s) for s in env_cases]
+    show = lambda s: "<unset>" if s is UNSET else (s if len(s) <= 40 else s[:20] + f"...({len(s)} chars)")  # noqa: E731
     for s, r in zip(env_cases, env_impl):
         if r[:2] != expected_env(s)[:2] and not (r[0] == "err" and expected_env(s)[0] == "err"):
-            out.violation(f"LONG_TERM_CAPITAL_GAINS={s!r}: implementation {r}, property demands {expected_env(s)}",
-                          {"env": s}, tags={"generic-env"})
+            out.violation(f"LONG_TERM_CAPITAL_GAINS={show(s)!r}: implementation {r if r[0] == 'err' else ['ok', '...']}, property demands "
+                          f"{expected_env(s)[0]}", {"env": None if s is UNSET else s}, tags={"generic-env"})
+    # the same values through the model of Generic.__init__ (Model/EntryC05Env.v, cmd 4): accept / reject and the value.
+    # Non-ASCII values are outside the ASCII-only model of int() and are not compared (listed in the evidence).
+    env_idx = [k for k, s in enumerate(env_cases) if s is UNSET or is_ascii(s)]
+    env_excluded = sorted({s for s in env_cases if s is not UNSET and not is_ascii(s)})
+    env_model = core.run_model([env_model_line(env_cases[k]) for k in env_idx]) if env_idx else []
+    env_mism, env_accepted = 0, 0
+    for k, m in zip(env_idx, env_model):
+        s, r = env_cases[k], env_impl[k]
+        want = [0, r[1]] if r[0] == "ok" else [5]
+        env_accepted += r[0] == "ok"
+        if list(m[:2]) != want or (r[0] == "err" and r[1] != "value"):
+            env_mism += 1
+            mism += 1
+            out.violation(f"LONG_TERM_CAPITAL_GAINS={show(s)!r}: implementation {r if r[0] == 'err' else ['ok', str(r[1])[:30]]}, model of "
+                          f"Generic.__init__ (cmd 4, digit limit {max_str_digits()}) {[str(x)[:30] for x in m[:2]]}",
+                          {"env": None if s is UNSET else s}, tags={"correspondence", "generic-env"}, found_input=False)
     if not proofs.ok:
         if not any(v["found_input"] for v in out.violations):
             out.violation("proof obligations of Properties/C05.v no longer check:\n" + proofs.log[-1500:],
@@ -148,7 +214,15 @@ def run(tier, build, replay=None):
         "samples": cases[:3],
         "traces_validated_against_impl": len(cases),
         "correspondence_mismatches": mism,
+        "generic_env_stream": {"values": len(env_cases), "compared_with_model": len(env_idx), "accepted_by_implementation": env_accepted,
+                               "mismatches": env_mism, "int_max_str_digits": max_str_digits(),
+                               "not_compared_non_ascii": [ascii(x) for x in env_excluded]},
     })
     out.assumptions = ["timedelta.days of CPython is floor division of the instant difference (library)",
-                       "timestamps within years 1970..9999"]
+                       "timestamps within years 1970..9999",
+                       "LONG_TERM_CAPITAL_GAINS: the model of Generic.__init__ (C05_generic_env_accepts / _rejects / _ok_iff) covers pure-ASCII values "
+                       "(int() of an ASCII str: C white space, one sign, digits with single inner underscores, the interpreter's digit limit, "
+                       "which is a parameter of the model and is read from the running interpreter); values with non-ASCII characters (digits of "
+                       "other scripts, Unicode white space, which CPython also accepts) are outside the model: they are run against the "
+                       "implementation and the oracle only, and listed under generic_env_stream.not_compared_non_ascii"]
     return out.finish(proofs, build)
